@@ -254,6 +254,15 @@ func c12GenBounds(t *rapid.T) []int64 {
 		cur = rapid.Int64Range(0, 1e10).Draw(t, "firstv")
 	}
 	b = append(b, cur)
+	if rapid.IntRange(0, 4).Draw(t, "even") == 0 {
+		// evenly spaced bounds (what a user writes by hand), not necessarily starting at zero
+		step := rapid.SampledFrom([]int64{1, 1000, 1e6, 5e6, 10e6, 1e9}).Draw(t, "evenstep")
+		for i := 1; i < n; i++ {
+			cur += step
+			b = append(b, cur)
+		}
+		return b
+	}
 	for i := 1; i < n; i++ {
 		var step int64
 		switch rapid.IntRange(0, 3).Draw(t, fmt.Sprintf("sk%d", i)) {
